@@ -179,6 +179,8 @@ def check(ctx):
     for c, r, m in c01.execute(gen_cases(ctx)):
         with ctx.guard(c):
             judge(ctx, c, r, m)
+    from harness.props import multistream
+    multistream.run(ctx, ctx.scale(40, 400), {'draws', 'process'}, 'multi-C02')
 
 
 def replay(ctx, data):
